@@ -4,7 +4,7 @@
    of templates (env.compile(raw=True) -> ast) and the handful of runtime helpers
    that open async generators (Template.generate_async / render_async /
    make_module_async / _get_default_module_async, BlockReference._async_call,
-   read with inspect.getsource) into the small statement language that
+   and the adapter of loop data auto_aiter, read with inspect.getsource) into the small statement language that
    spec/AsyncGen.tla interprets:
 
      yield | pt | if a b | many body | open var fn | afor var body orelse g
